@@ -115,11 +115,14 @@ class ModuleInfo:
             for k, v in import_bindings(st, self.name).items():
                 self.imports[k] = v
         elif isinstance(st, (ast.Try, ast.If)):
-            # module level try/if (mtm.py library loading): only harvest imports/defs
+            # module level try/if (mtm.py library loading): harvest imports and simple assignments
+            # (for an if/else the else-arm wins: `hasattr(sys, "frozen")` is False)
             for sub in ast.walk(st):
                 if isinstance(sub, (ast.Import, ast.ImportFrom)):
                     for k, v in import_bindings(sub, self.name).items():
                         self.imports.setdefault(k, v)
+                elif isinstance(sub, ast.Assign) and len(sub.targets) == 1 and isinstance(sub.targets[0], ast.Name):
+                    self.global_nodes[sub.targets[0].id] = sub.value
 
 
 def import_bindings(st, modname):
